@@ -34,6 +34,7 @@ type RawClient struct {
 	pending    map[[12]byte]*pendOp
 	Received   []RecvRec
 	ConnIDs    []uint32
+	Data       []*dataConn
 }
 
 type pendOp struct {
@@ -402,7 +403,9 @@ func (c *RawClient) Do(op *Op) {
 			c.W.Mon.ControlClosed(ustr(c.Addr))
 		}
 	default:
-		Fatalf("rawclient: unknown op kind %q", op.Kind)
+		if !c.doTCPOp(op) {
+			Fatalf("rawclient: unknown op kind %q", op.Kind)
+		}
 	}
 }
 
